@@ -15,7 +15,7 @@ def member(m, cap, x, fault, **kw):
 
 def cases(tier):
     out = []
-    cfgs = [(8, 1, 1, 2), (4, 2, 2, 3), (2, 4, 4, 2), (2, 8, 8, 6)] if tier == 'quick' else [(8, 1, 1, 2), (4, 2, 2, 3), (2, 4, 4, 2), (64, 1, 1, 1), (16, 2, 4, 6), (8, 8, 8, 2)]
+    cfgs = [(8, 1, 1, 2), (4, 2, 2, 3), (2, 4, 4, 2), (2, 8, 8, 6), (64, 1, 1, 1)] if tier == 'quick' else [(8, 1, 1, 2), (4, 2, 2, 3), (2, 4, 4, 2), (64, 1, 1, 1), (16, 2, 4, 6), (8, 8, 8, 2)]
     for (n, m, cap, x) in cfgs:
         for fi, fault in enumerate(FAULTS):
             if tier == 'quick' and (fi + n) % 2 and fault != 'const':
@@ -39,6 +39,17 @@ def cases(tier):
                 zb = dict(base, zero_blinding_components=list(range(1, x)))
                 pair('statement differs (blinding generator 1, same commitment)', zb, dict(zb, degenerate_g=True), False)
             pair('statement differs (promise value)', base, dict(base, promises=['2' if n >= 2 else '1'] + [None] * (m - 1)), False)
+            # boundary promise values: an absent promise and the largest promise that fits are different public inputs
+            if n >= 2:
+                top = str((1 << n) - 1)
+                tb = dict(base, values=[top] * m, sym_bits=False)
+                pair('statement differs (promise absent vs 2^n - 1)', dict(tb, promises=[None] * m), dict(tb, promises=[top] + [None] * (m - 1)), False)
+                pair('statement differs (promise 2^n - 2 vs 2^n - 1)', dict(tb, promises=[str((1 << n) - 2)] + [None] * (m - 1)), dict(tb, promises=[top] + [None] * (m - 1)), False)
+            # a witness object whose openings were written through the public field after construction is a witness like any other
+            pair('identical runs, second witness updated in place', base, dict(base, witness_in_place=True), True)
+            for sj in (range(m) if x >= 2 else ()):
+                pair('witness differs (same commitment), opening %d, both witnesses updated in place' % sj, dict(base, degenerate_g=True, witness_in_place=True),
+                     dict(base, degenerate_g=True, witness_shift=sj, witness_in_place=True), False)
             if m == 1 and x >= 2:
                 sa = dict(base, seeded=True)
                 pair('seeded: witness differs (same commitment)', dict(sa, degenerate_g=True), dict(sa, degenerate_g=True, witness_shift=0), False)
